@@ -86,7 +86,10 @@ func (psp *pbSubProto) Unpack(m erpc.Message) error {
 
 	// read transfer pipe
 	for _, r := range s.XferPipe {
-		m.XferPipe().Append(r)
+		// a frame naming an unregistered transfer filter is refused, not passed through
+		if err = m.XferPipe().Append(r); err != nil {
+			return err
+		}
 	}
 
 	// read body
